@@ -469,7 +469,65 @@ def stream_inputs(chk, n_single, n_multi, n_bad):
                 s = G.mutate(rng, s)
             bad.append(s)
     fam['malformed'] = bad
+    fam['regex'] = regex_samples(rng, max(2000, n_bad // 2))
     return fam
+
+# ------------------------------------------------------------------ inputs drawn from the LIVE regex
+
+def regex_samples(rng, n):
+    """strings generated from the parse tree of the live `_directive_re` (random member of every class, random branch, repeats
+    0..3 times) and one-edit neighbours of them: whatever the current pattern accepts — including anything a changed pattern
+    accepts in addition — is represented, so a language extension shows up as an input the printf reference rejects.
+    Also `%` + every near miss obtained by dropping one element of a sampled directive."""
+    try:
+        import re._parser as sp, re._constants as sc
+        rx = M()._directive_re
+        tree = sp.parse(rx.pattern, rx.flags)
+    except Exception:
+        return []
+    def cls_member(av):
+        neg = any(op is sc.NEGATE for op, _ in av)
+        pool = []
+        for op, a in av:
+            if op is sc.LITERAL: pool.append(chr(a))
+            elif op is sc.RANGE: pool += [chr(a[0]), chr(a[1]), chr(rng.randint(a[0], a[1]))]
+            elif op is sc.CATEGORY:
+                pool += {sc.CATEGORY_DIGIT: ['0', '7', '٣'], sc.CATEGORY_WORD: ['a', '_', 'é'], sc.CATEGORY_SPACE: [' ', '\n']}.get(a, ['x'])
+        if neg:
+            cands = [c for c in 'a b%d$*.<>0\n' if c not in pool]
+            return rng.choice(cands) if cands else 'x'
+        return rng.choice(pool) if pool else ''
+    def gen(items):
+        out = []
+        for op, av in items:
+            if op is sc.LITERAL: out.append(chr(av))
+            elif op is sc.NOT_LITERAL: out.append(rng.choice([c for c in 'ab 1$' if ord(c) != av]))
+            elif op is sc.IN: out.append(cls_member(av))
+            elif op is sc.ANY: out.append(rng.choice('a%\n'))
+            elif op is sc.BRANCH: out.append(gen(rng.choice(av[1])))
+            elif op is sc.SUBPATTERN: out.append(gen(av[3]))
+            elif op in (sc.MAX_REPEAT, sc.MIN_REPEAT):
+                lo, hi, p = av
+                k = lo + (rng.randint(0, 3) if hi is sc.MAXREPEAT else rng.randint(0, max(0, min(hi, lo + 3) - lo)))
+                out.append(''.join(gen(p) for _ in range(k)))
+            elif op is sc.AT: pass
+            else: out.append('')
+        return ''.join(out)
+    res = []
+    for _ in range(n):
+        try:
+            parts = [gen(tree) for _ in range(rng.choice((1, 1, 1, 2, 3)))]
+        except Exception:
+            break
+        s = ''.join(parts)
+        res.append(s)
+        if s and rng.random() < 0.5:
+            i = rng.randrange(len(s))
+            res.append(s[:i] + s[i + 1:])                 # drop one character
+        if s and rng.random() < 0.25:
+            i = rng.randrange(len(s) + 1)
+            res.append(s[:i] + rng.choice("0$*.hlLI%<>1 ") + s[i:])
+    return res
 
 def corpus():
     d = os.path.join(common.VERIF, 'corpus', 'C11')
